@@ -347,7 +347,9 @@ def build_odp(seed: int, feature: str | None = None, twin: bool = False):
             want_notes = not twin
         if want_notes:
             n = exp.out(tk.new("n"))
-            notes = f'<presentation:notes><draw:frame presentation:class="notes" svg:x="1cm" svg:y="1cm"><draw:text-box><text:p>{n}</text:p></draw:text-box></draw:frame></presentation:notes>'
+            # presentation:class on the notes frame is optional (LibreOffice writes it, minimal writers do not)
+            ncls = ' presentation:class="notes"' if rng.random() < 0.5 else ""
+            notes = f'<presentation:notes><draw:frame{ncls} svg:x="1cm" svg:y="1cm"><draw:text-box><text:p>{n}</text:p></draw:text-box></draw:frame></presentation:notes>'
         pages.append(f'<draw:page draw:name="page{s + 1}" draw:master-page-name="Default">{"".join(frames)}{notes}</draw:page>')
     exp.n_units = n_slides
     content = (f'<?xml version="1.0" encoding="UTF-8"?><office:document-content {NSDECL}><office:body><office:presentation>{"".join(pages)}</office:presentation></office:body></office:document-content>')
